@@ -52,7 +52,8 @@ CLAIM = (
     "(OSError, KeyboardInterrupt; thorough adds RuntimeError) injected at every numbered third-party write effect of a "
     "recorded reference save (zarr group/array/attribute writes, zip writes and close), each for both stores, both modes, "
     "4 pre-states of the target and every spelling of the target (with or without the '.zip' suffix that save() appends itself, "
-    "str or pathlib.Path). After every failure the target is absent, unreadable by load(), or loads to the "
+    "str or pathlib.Path) and for a 25-name alphabet of awkward target names with neighbours at every look-alike name; a "
+    "successful save creates or replaces exactly its effective target and load() returns the object. After every failure the target is absent, unreadable by load(), or loads to the "
     "complete earlier (or complete new) object; mode 'w' never changes an existing target (recursive content hash); no "
     "sibling path and no temp-dir entry is changed or leaked. Fault enumeration is the right level because the property "
     "quantifies over the fault positions of one finite write sequence."
@@ -67,7 +68,9 @@ RULE = (
     "Cartesian product graph x fault position (every recorded write effect k, resp. every attribute/element position) x "
     "exception class x store {zip,dir} x mode {w,o} x pre-state {absent, earlier complete save of another object, plain "
     "file, directory} x target spelling {'.zip' path | extension-less path with store='zip' (effective target path+'.zip', the "
-    "un-suffixed path being an absent / directory-store / plain-file sibling); str | pathlib.Path}, plus the no-fault controls. A case is non-trivial when the fault actually fired inside save() "
+    "un-suffixed path being an absent / directory-store / plain-file sibling); str | pathlib.Path} and, on a stated sub-lattice of the fault dimensions, x target name {stems ending in '.', 'z', 'i', 'p'; "
+    "doubled and upper-case suffix; space; non-ASCII; several dots; relative path; trailing slash; store='auto'} with unrelated "
+    "complete saves at every name the target name could be confused with, plus the no-fault controls. A case is non-trivial when the fault actually fired inside save() "
     "(mode 'w' on an existing target is refused before any write and counts as trivial)."
 )
 
@@ -85,6 +88,66 @@ SPELLINGS = {
     "zip": ["suffixed-str-dirstore", "suffixed-Path-dirstore", "bare-str-absent", "bare-str-dirstore", "bare-str-file", "bare-Path-dirstore"],
     "dir": ["str", "Path"],
 }
+
+# Target NAMES: what the last path component looks like and how the path is written. `store_arg` is what is passed as
+# store=, `kind` is the store the documentation promises for it ('.zip' extension => zip archive, anything else => a
+# directory), `effective` is the one path a successful save may create or replace. `may_refuse`: the library refuses
+# directory targets that have an extension; that is accepted, but then the refusal is judged like any failed save.
+# Every case gets NEIGHBOURS (unrelated complete saves) at every name a sloppy normalisation of the name could collide
+# with: un-suffixed name, doubled suffix, trailing '.', 'z', 'i', 'p' characters stripped (+ ".zip"), last extension dropped.
+NAMES = {
+    # --- zip archives, store="zip"
+    "z-tip": {"kind": "zip", "store_arg": "zip", "given": "tip.zip", "effective": "tip.zip"},
+    "z-roi": {"kind": "zip", "store_arg": "zip", "given": "roi.zip", "effective": "roi.zip"},
+    "z-tmp": {"kind": "zip", "store_arg": "zip", "given": "tmp.zip", "effective": "tmp.zip"},
+    "z-dot": {"kind": "zip", "store_arg": "zip", "given": "x..zip", "effective": "x..zip"},
+    "z-double": {"kind": "zip", "store_arg": "zip", "given": "a.zip.zip", "effective": "a.zip.zip"},
+    "z-upper": {"kind": "zip", "store_arg": "zip", "given": "o.ZIP", "effective": "o.ZIP.zip"},
+    "z-space": {"kind": "zip", "store_arg": "zip", "given": "my data.zip", "effective": "my data.zip"},
+    "z-nonascii": {"kind": "zip", "store_arg": "zip", "given": "mesure_\u00e9.zip", "effective": "mesure_\u00e9.zip"},
+    "z-dots": {"kind": "zip", "store_arg": "zip", "given": "v1.2.zip", "effective": "v1.2.zip"},
+    "z-bare-tip": {"kind": "zip", "store_arg": "zip", "given": "tip", "effective": "tip.zip"},
+    "z-bare-dots": {"kind": "zip", "store_arg": "zip", "given": "v1.2", "effective": "v1.2.zip"},
+    "z-relative": {"kind": "zip", "store_arg": "zip", "given": "roi.zip", "effective": "roi.zip", "rel": True},
+    "z-auto": {"kind": "zip", "store_arg": "auto", "given": "tip.zip", "effective": "tip.zip"},
+    # --- directory stores
+    "d-tip": {"kind": "dir", "store_arg": "dir", "given": "tip", "effective": "tip"},
+    "d-roi": {"kind": "dir", "store_arg": "dir", "given": "roi", "effective": "roi"},
+    "d-tmp": {"kind": "dir", "store_arg": "dir", "given": "tmp", "effective": "tmp"},
+    "d-space": {"kind": "dir", "store_arg": "dir", "given": "my data", "effective": "my data"},
+    "d-nonascii": {"kind": "dir", "store_arg": "dir", "given": "mesure_\u00e9", "effective": "mesure_\u00e9"},
+    # "roi/" does not name a plain FILE called roi (POSIX: ENOTDIR, os.path.exists is False), so with that pre-state
+    # the library cannot remove it in mode 'o' and the save fails (HEAD: FileExistsError from makedirs, nothing changed);
+    # accepted as a refusal and judged like any failed save
+    "d-slash": {"kind": "dir", "store_arg": "dir", "given": "roi/", "effective": "roi", "may_refuse_pre": ["file"]},
+    "d-relative": {"kind": "dir", "store_arg": "dir", "given": "roi", "effective": "roi", "rel": True},
+    "d-auto": {"kind": "dir", "store_arg": "auto", "given": "tip", "effective": "tip"},
+    "d-dots": {"kind": "dir", "store_arg": "dir", "given": "v1.2", "effective": "v1.2", "may_refuse": True},
+    "d-upper": {"kind": "dir", "store_arg": "dir", "given": "o.ZIP", "effective": "o.ZIP", "may_refuse": True},
+    "d-auto-upper": {"kind": "dir", "store_arg": "auto", "given": "o.ZIP", "effective": "o.ZIP", "may_refuse": True},
+    "d-enddot": {"kind": "dir", "store_arg": "dir", "given": "x.", "effective": "x.", "may_refuse": True},
+}
+PTYPES = ["str", "Path"]
+
+
+def neighbour_names(effective, given):
+    """Names a wrong normalisation of the target name could hit instead of (or besides) the effective target."""
+    out = set()
+    for n in {effective, given.rstrip("/")}:
+        base = n[:-4] if n.lower().endswith(".zip") else n
+        out |= {
+            base,  # un-suffixed
+            n + ".zip",  # doubled suffix
+            base + ".zip",
+            base.rstrip(".zip") + ".zip",  # trailing '.', 'z', 'i', 'p' characters stripped
+            n.rstrip(".zip") + ".zip",
+            base.rstrip(".zip"),
+            os.path.splitext(base)[0],  # last extension dropped
+            os.path.splitext(base)[0] + ".zip",
+            n.lower(),
+        }
+    out -= {effective, "", ".", "..", ".zip"}
+    return sorted(out)
 
 
 # ----------------------------------------------------------------------------- test classes (module level: load() imports them)
@@ -502,7 +565,17 @@ def _cls(relation, case):
     }
 
 
+def may_refuse_case(case):
+    """Target-name cases in which a refusal without any injected fault is legitimate."""
+    if "name" not in case:
+        return False
+    e = NAMES[case["name"]]
+    return bool(e.get("may_refuse")) or (case["pre"] in e.get("may_refuse_pre", ()) and case.get("ptype", "str") == "str")
+
+
 def spelling_of(case):
+    if "name" in case:
+        return f"name:{case['name']}-{case.get('ptype', 'str')}"
     return case.get("spell") or SPELLINGS[case["store"]][0]
 
 
@@ -515,16 +588,30 @@ def run_case(case, seed, scratch, verbose=False):
     tmpd = os.path.join(cdir, "tmp")
     os.makedirs(parent)
     os.makedirs(tmpd)
-    tname = "o.zip" if store == "zip" else "o"
-    target = os.path.join(parent, tname)  # the EFFECTIVE target: every oracle is about this path
     spell = spelling_of(case)
-    if store == "zip":
-        ext, ptype, stem = spell.split("-")
-        given = target if ext == "suffixed" else os.path.join(parent, "o")
+    entry = NAMES[case["name"]] if "name" in case else None
+    neighbours, may_refuse, relative, store_arg = [], False, False, store
+    if entry is not None:
+        # target-name alphabet: `store` is the kind of store the documentation promises for this name
+        tname = entry["effective"]
+        target = os.path.join(parent, tname)
+        ptype, stem = case.get("ptype", "str"), None
+        relative = bool(entry.get("rel"))
+        given = entry["given"] if relative else os.path.join(parent, entry["given"])
+        neighbours = neighbour_names(tname, entry["given"])
+        may_refuse = may_refuse_case(case)
+        store_arg = entry["store_arg"]
     else:
-        ext, ptype, stem = "bare", spell, None
-        given = target
+        tname = "o.zip" if store == "zip" else "o"
+        target = os.path.join(parent, tname)  # the EFFECTIVE target: every oracle is about this path
+        if store == "zip":
+            ext, ptype, stem = spell.split("-")
+            given = target if ext == "suffixed" else os.path.join(parent, "o")
+        else:
+            ext, ptype, stem = "bare", spell, None
+            given = target
     arg = pathlib.Path(given) if ptype == "Path" else given
+    saved_cwd = os.getcwd()
     fails = []
     rec = {"fired": False}
     saved_tempdir = tempfile.tempdir
@@ -533,7 +620,11 @@ def run_case(case, seed, scratch, verbose=False):
         tpl_zip = _template(scratch, seed, "zip")
         tpl_dir = _template(scratch, seed, "dir")
         # ---- siblings: the same-stem path of the other store kind, look-alike names, a file, a directory, a hidden file
-        if store == "zip":
+        if entry is not None:
+            # unrelated complete saves at every name the target name could be confused with
+            for nb in neighbours:
+                _copy(tpl_zip if nb.endswith(".zip") else tpl_dir, os.path.join(parent, nb))
+        elif store == "zip":
             # the un-suffixed path next to the archive is NOT the target, whatever spelling is used
             if stem == "dirstore":
                 _copy(tpl_dir, os.path.join(parent, "o"))
@@ -570,6 +661,8 @@ def run_case(case, seed, scratch, verbose=False):
             obj = replace_at(obj, path, C08Poison(case["exc"]))
         tempfile.tempdir = tmpd
         os.environ["TMPDIR"] = tmpd
+        if relative:
+            os.chdir(parent)  # restored in the finally block below
         h_target0 = tree_hash(target)
         sib0 = snapshot_dir(parent, tname)
         tmp0 = tree_hash(tmpd)
@@ -580,7 +673,7 @@ def run_case(case, seed, scratch, verbose=False):
             r = Recorder(case.get("k"), INJ_EXC[case["exc"]] if case.get("exc") else None, root=os.path.abspath(cdir))
             with intercepted(r):  # seams are restored on exit, whatever happens (workers are long-lived)
                 try:
-                    _quiet_save(obj, arg, mode=mode, store=store)
+                    _quiet_save(obj, arg, mode=mode, store=store_arg)
                 except BaseException as e:  # the behaviour under test (incl. KeyboardInterrupt)
                     raised = type(e).__name__
             rec["fired"] = r.fired is not None
@@ -589,7 +682,7 @@ def run_case(case, seed, scratch, verbose=False):
             rec["effect"] = r.fired
         else:
             try:
-                _quiet_save(obj, arg, mode=mode, store=store)
+                _quiet_save(obj, arg, mode=mode, store=store_arg)
             except BaseException as e:
                 raised = type(e).__name__
             rec["fired"] = C08Poison.fired > poison_before
@@ -612,7 +705,11 @@ def run_case(case, seed, scratch, verbose=False):
             if raised is None:
                 fails.append((_cls("write_once_refuses", case), f"{describe(case)}: mode 'w' on an existing target ({pre}): save() returned normally; expected a refusal (exception)"))
         elif raised is None:
-            # save claims success: the complete new object must be there
+            # save claims success: it created or replaced exactly its effective target, and the complete new object is there
+            if sib0 != sib1 or h_target1 == "absent" or (h_target1 == h_target0 and fam != "seamfree"):
+                what = [snapshot_delta(sib0, sib1)] if sib0 != sib1 else []
+                what.append(f"effective target {tname!r} " + ("absent" if h_target1 == "absent" else "unchanged" if h_target1 == h_target0 else "written"))
+                fails.append((_cls("successful_save_writes_exactly_its_target", case), f"{describe(case)}: save() returned normally; listing of the parent directory before/after: {'; '.join(what)}; expected exactly one created or replaced entry, {tname!r}"))
             if fam == "seamfree":
                 state = "returned_with_poison"
             else:
@@ -626,7 +723,7 @@ def run_case(case, seed, scratch, verbose=False):
                     state = "UNREADABLE_AFTER_SUCCESS"
                     fails.append((_cls("successful_save_round_trips", case), f"{describe(case)}: save() returned normally but load(target) raised {type(e).__name__}: {str(e)[:200]}"))
         else:
-            if fam in ("control", "record"):
+            if fam in ("control", "record") and not may_refuse:
                 fails.append((_cls("no_fault_save_succeeds", case), f"{describe(case)}: nothing was injected and the target is {'absent' if pre == 'absent' else 'to be overwritten (mode o)'}, but save() raised {raised}; expected success"))
             if not os.path.lexists(target):
                 state = "absent"
@@ -654,6 +751,8 @@ def run_case(case, seed, scratch, verbose=False):
                                 f"(complete object has {sorted(vars(new))}; first difference: {d_new}); expected target absent, unreadable, or equal to a complete save",
                             )
                         )
+        if may_refuse and raised is not None and fam in ("control", "record"):
+            state = "refused:" + state
         rec["state"] = state
         if verbose:
             print(f"  {describe(case)}")
@@ -661,6 +760,7 @@ def run_case(case, seed, scratch, verbose=False):
                   f"target hash {h_target0} -> {h_target1}; siblings {'unchanged' if sib0 == sib1 else snapshot_delta(sib0, sib1)}; temp dir {'unchanged' if tmp0 == tmp1 else 'CHANGED'}")
             print("    expected: " + ("refusal, target byte-identical" if expect_refusal else "success and exact round trip" if fam in ("control", "record") else "target absent | unreadable | complete earlier/new object") + "; siblings and temp dir unchanged")
     finally:
+        os.chdir(saved_cwd)
         tempfile.tempdir = saved_tempdir
         if saved_env is None:
             os.environ.pop("TMPDIR", None)
@@ -678,7 +778,11 @@ def describe(case):
     else:
         where = "no fault"
     sp = spelling_of(case)
-    if case["store"] == "zip":
+    if "name" in case:
+        e = NAMES[case["name"]]
+        how = (f"path given as {case.get('ptype', 'str')} {e['given']!r} ({'relative to the working directory' if e.get('rel') else 'absolute'}) with store={e['store_arg']!r}; "
+               f"effective target {e['effective']!r}; unrelated complete saves at {neighbour_names(e['effective'], e['given'])}")
+    elif case["store"] == "zip":
         ext, ptype, stem = sp.split("-")
         how = f"path given as {ptype} " + ("'…/o.zip'" if ext == "suffixed" else "'…/o' (extension-less, library appends .zip; effective target o.zip)") + f", un-suffixed sibling 'o' holds {'nothing' if stem == 'absent' else 'a complete directory-store object' if stem == 'dirstore' else 'a plain file'}"
     else:
@@ -693,7 +797,7 @@ def case_key(case):
 def work(case, seed=0, scratch="/tmp"):
     t = Tally()
     rec, fails = run_case(case, seed, scratch)
-    expect_fire = case["family"] in ("injected", "seamfree") and not (case["mode"] == "w" and case["pre"] != "absent")
+    expect_fire = case["family"] in ("injected", "seamfree") and not (case["mode"] == "w" and case["pre"] != "absent") and not may_refuse_case(case)
     t.case(key=case_key(case), nontrivial=bool(rec["fired"]), outcome=[case["family"], case["store"], spelling_of(case), case["mode"], case["pre"], rec["raised"], rec["state"], bool(rec["fired"])])
     t.extra[f"{case['family']}_cases"] += 1
     t.extra[f"state_{rec['state'].split(':')[0]}"] += 1
@@ -705,7 +809,11 @@ def work(case, seed=0, scratch="/tmp"):
         t.extra["effect_count_differs_for_spelling"] += 1
     if "spell" in case:
         t.extra["non_baseline_spelling_cases"] += 1
-    if case["family"] in ("injected", "seamfree") and not expect_fire:
+    if "name" in case:
+        t.extra["target_name_cases"] += 1
+        if rec["state"].startswith("refused"):
+            t.extra["target_name_refusals_of_extension_directories"] += 1
+    if case["family"] in ("injected", "seamfree") and not expect_fire and not may_refuse_case(case):
         t.extra["write_once_refusals_checked"] += 1
         if rec["fired"]:
             t.extra["fault_fired_in_write_once_refusal"] += 1
@@ -719,6 +827,8 @@ def work(case, seed=0, scratch="/tmp"):
             want = (case["mode"] == "o" and case["k"] == case["n_effects"] // 2) or (case["mode"] == "w" and case["k"] == 0 and case["graph"] == "attrs")
         elif case["family"] == "seamfree" and case["mode"] == "o":
             want = len(case["path"]) >= 2 and case["graph"] == "nested" and case["path"][-1][1] == "q"
+    if "name" in case:
+        want = case["family"] == "control" and case["graph"] == "attrs" and case["pre"] == "old" and case["mode"] == "o" and case.get("ptype") == "str" and case["name"] in ("z-tip", "d-dots")
     if "spell" in case:
         want = case["family"] == "injected" and case["graph"] == "arrays" and case["pre"] == "old" and case["spell"] == "bare-str-dirstore" and case["k"] == case["n_effects"] - 1
     if want:
@@ -849,7 +959,45 @@ def run(ctx):
                                         cases.append(tag_spell({"family": "injected", "graph": g, "store": s, "mode": m, "pre": p, "exc": e, "k": k, "n_effects": n}, sp, base))
                                         n_inj += 1
     n_alt = sum(1 for c in cases if "spell" in c)
-    ctx.say(f"{len(cases)} executions: {n_seamfree} seam-free, {n_inj} injected, {len(cases) - n_seamfree - n_inj} controls / recorded no-fault runs; {n_alt} of them with a non-baseline target spelling")
+    # target-NAME alphabet (NAMES x str/Path), crossed with mode x pre-state and a sub-lattice of the fault dimensions:
+    # thorough = graphs attrs/arrays/nested, no-fault controls, OSError at the first / middle / middle-of-zip-assembly /
+    # last effect and the poison at the first / last position, all 4 pre-states; quick = graphs attrs/arrays, controls for
+    # str and Path, OSError at the first / last effect and the poison at the last position for str with pre-states absent/old.
+    # Names whose directory target has an extension (refused by the library) get the controls only.
+    name_graphs = [g for g in graphs if g in (("attrs", "arrays") if ctx.quick else ("attrs", "arrays", "nested"))]
+    for nm, e in NAMES.items():
+        kind = e["kind"]
+        for pt in PTYPES:
+            for g in name_graphs:
+                if ctx.quick and pt != "str" and g != name_graphs[0]:
+                    continue  # quick: the pathlib.Path controls on the simplest graph only
+                for m in MODES:
+                    for p in PRES:
+                        cases.append({"family": "control", "graph": g, "store": kind, "mode": m, "pre": p, "exc": None, "name": nm, "ptype": pt})
+                if e.get("may_refuse") or (ctx.quick and pt != "str"):
+                    continue
+                pres = ["absent", "old"] if ctx.quick else PRES
+                pos = positions(build_graph(g, ctx.seed))
+                for pi in ([len(pos) - 1] if ctx.quick else sorted({0, len(pos) - 1})):
+                    for m in MODES:
+                        for p in pres:
+                            if keep(m, p, pi, len(pos)):
+                                cases.append({"family": "seamfree", "graph": g, "store": kind, "mode": m, "pre": p, "exc": "PicklingError", "path": [list(x) for x in pos[pi]], "name": nm, "ptype": pt})
+                if not have_seams:
+                    continue
+                log = effects[(g, kind)]
+                n = len(log)
+                zw = [i for i, tag in enumerate(log) if tag.startswith("ZipFile.write")]
+                ks = sorted({0, n - 1}) if ctx.quick else sorted({0, n // 2, n - 1} | ({zw[len(zw) // 2]} if zw else set()))
+                for k in ks:
+                    for m in MODES:
+                        for p in pres:
+                            if keep(m, p, k, n):
+                                cases.append({"family": "injected", "graph": g, "store": kind, "mode": m, "pre": p, "exc": "OSError", "k": k, "n_effects": n, "name": nm, "ptype": pt})
+    n_named = sum(1 for c in cases if "name" in c)
+    n_seamfree = sum(1 for c in cases if c["family"] == "seamfree")
+    n_inj = sum(1 for c in cases if c["family"] == "injected")
+    ctx.say(f"{len(cases)} executions: {n_seamfree} seam-free, {n_inj} injected, {len(cases) - n_seamfree - n_inj} controls / recorded no-fault runs; {n_alt} of them with a non-baseline target spelling, {n_named} from the target-name alphabet")
     merged = ctx.pmap(work, cases, chunk=12, label="faults", seed=ctx.seed, scratch=ctx.scratch)
 
     fired_sf = int(merged.extra["seamfree_faults_fired"])
@@ -865,6 +1013,8 @@ def run(ctx):
             "keyboardinterrupt_injected_into_graphs": ki_graphs,
             "poison_exceptions": poison_exc,
             "target_spellings": SPELLINGS,
+            "target_names": {k: {"given": v["given"], "store": v["store_arg"], "effective_target": v["effective"], "relative": bool(v.get("rel")), "neighbours": neighbour_names(v["effective"], v["given"])} for k, v in NAMES.items()},
+            "target_name_path_types": PTYPES,
         },
         bounds={
             "write_effects_per_graph_store": {f"{g}/{s}": len(v) for (g, s), v in effects.items()},
@@ -876,6 +1026,11 @@ def run(ctx):
                 "fault_positions": "first, middle, middle of the zip assembly, last" if ctx.quick else "all",
                 "exceptions": ["OSError", "PicklingError"],
                 "executions": n_alt,
+            },
+            "target_name_lattice": {
+                "graphs": name_graphs,
+                "families": "controls (str on both graphs, Path on attrs); OSError at first/last effect and poison at last position (str; pre-states absent, old)" if ctx.quick else "controls; OSError at first/middle/middle of zip assembly/last effect; poison at first/last position; str and Path; all pre-states",
+                "executions": n_named,
             },
         },
         seams_found=[tag for _, _, tag, _, _ in seams],
